@@ -112,7 +112,10 @@ def code_for_string_token(name, value, location):
 
     value_without_quotes = value[1:-1]
     if len(value_without_quotes) != 1:
-        value_without_quotes = value_without_quotes.encode("utf-8").decode("unicode_escape")
+        try:
+            value_without_quotes = value_without_quotes.encode("utf-8").decode("unicode_escape")
+        except UnicodeDecodeError:
+            value_without_quotes = ""
         if len(value_without_quotes) != 1:
             raise errors.InterfaceError(
                 "text for %s must be a single character but is: %s" % (name, _compat.text_repr(value)), location
